@@ -646,7 +646,10 @@ def specials(depth_family=False):
                  "\tp = (char *)malloc(sizeof(char) * 3);\n\ta = -b + ~c - !a;\n\ta = sizeof(int) * sizeof b;\n"
                  "\twhile (a++ < 3)\n\t\t;\n\tif (a == 1\n\t\t&& b == 2)\n\t\tc = ft_x(1,\n\t\t\t\t2);\n"
                  "\tft_putstr(\"a\"\n\t\t\"b\");\n\t(*p)(a);\n\treturn (ft_x(a, b) + 3);\n")
-    out.append(("zoo_member.c", ok_func("zoo_member.c", body="\tft_last(l)->next = 0;\n\tft_last(l)->default = b && c;\n\tl->int = a;\n\treturn (0);\n"), "zoo"))
+    # a member spelt like a keyword after `call(...)->`, and the ordinary form, in separate files (state that is used up by the first
+    # such statement of a process shows only when the two are analysed one after the other)
+    out.append(("zoo_member.c", ok_func("zoo_member.c", body="\tft_last(l)->default = b && c;\n\treturn (0);\n"), "zoo"))
+    out.append(("zoo_member2.c", ok_func("zoo_member2.c", body="\tft_last(l)->next = 0;\n\tl->int = a;\n\treturn (0);\n"), "zoo"))
     out.append(("zoo_clean.c", ok_func("zoo_clean.c", body=zoo_clean), "zoo"))
     zoo_bad = ("\tint\ti;\n\tint\tj;\n\n\ti = j = 3;\n\ti++, j--;\n\ti = (i > 0) ? 1 : 2;\n\tfor (i = 0; i < 3; i++)\n\t\ti--;\n"
                "\tdo\n\t{\n\t\ti++;\n\t} while (i < 3);\n\tswitch (i)\n\t{\n\t\tcase 1:\n\t\t\tbreak ;\n\t\tdefault:\n\t\t\tbreak ;\n\t}\n"
@@ -679,6 +682,11 @@ def specials(depth_family=False):
     # on how deep the caller's stack already is (which must be the same for every input channel and option)
     for d in (range(44, 90) if depth_family else ()):
         out.append((f"depth_if{d}.c", header42(f"depth_if{d}.c") + "\n#if " + "(" * d + "1" + ")" * d + "\n# define A 1\n#endif\n\nint\tmain(void)\n{\n\treturn (0);\n}\n", "depth"))
+    # line-break-like characters (which are NOT line breaks for a C source) inside multi-line tokens at the very end of a file,
+    # with a violation on the last lines: any component that re-derives line numbers from token text shows here
+    for k, ch in enumerate(["\x0c", "\x0b", "\x85", "\u2028", "\u2029", "\x1c"]):
+        out.append((f"lbchar{k}.c", ok_func(f"lbchar{k}.c") + "\n/*\n** a" + ch + "b " + ch + "\n** " + "x" * 90 + "\n*/\n", "lbchar"))
+        out.append((f"lbchar{k}s.c", ok_func(f"lbchar{k}s.c", body="\tft_putstr(\"a" + ch + "b\");\n\treturn (0); \n"), "lbchar"))
     # malformed literals (4.11)
     lits = ["0b102", "0189", "0xfg", "10lul", "10q", "1uu", "0x1e+1", "1e", "1e+", "1.e-", "1.2.3", "1.0q", "1.0ff",
             "0xx1p1", "0x1.8", "''", "'ab'", "'\\x'", "'\\q'", "L'a'", "u8\"s\"", "L''", "\"\\xZZ\"", "1..2", ".5.", "0x",
